@@ -132,3 +132,17 @@ Theorem C15_layouts_agree : forall fails T sc n k h0, elt_ok T -> scn_ok sc -> f
   atr (r_final (run_scn fails T sc (init n k))) = t1 ++ EDealloc b sz al :: t2 ->
   exists h1, valid h0 t1 h1 /\ hfind b h1 = Some (sz, al).
 Proof. exact run_releases_paired. Qed.
+
+(* ---- tie to the current source: regenerated on every run by tools/ga2coq (coq/gen) ---- *)
+From Coq Require Import String.
+From GA Require Import Guards GuardTie.
+From GAGen Require Import GenGuards GenConstFns.
+Local Open Scope Z_scope.
+
+(* the length tests of TryFrom<Vec<T>> and try_from_boxed_slice as they stand in
+   src/impl_alloc.rs now: LengthError exactly when len <> N *)
+Theorem C15_source_guards : forall L N,
+  rejects try_from_vec_guard (env1 "v.len" L) N = negb (L =? N) /\ fails_by_panic try_from_vec_guard = false /\
+  rejects try_from_boxed_slice_guard (env1 "slice.len" L) N = negb (L =? N) /\
+  fails_by_panic try_from_boxed_slice_guard = false.
+Proof. exact tie_heap_guards. Qed.
